@@ -157,6 +157,40 @@ def hand_written_eq_hash():
     return rows
 
 
+ENV_PATTERNS = [
+    ("clock", r"\b(?:Instant|SystemTime|UNIX_EPOCH|Duration)\b|\bstd::time\b|\belapsed\s*\("),
+    ("environment", r"\benv::(?:var|vars|var_os|vars_os|current_dir|temp_dir|home_dir|current_exe)\b|\bcurrent_dir\s*\("),
+    ("arguments", r"\benv::args(?:_os)?\b|\bArgs::parse_args\w*"),
+    ("directory-listing", r"\bread_dir\s*\(|\bWalkDir\b|\bglob\s*\("),
+    ("identity", r"\bprocess::id\b|\bthread::current\b|\bavailable_parallelism\b|\bThreadId\b"),
+    ("random", r"\bthread_rng\b|\brand::|\bRandomState\b|\bDefaultHasher\b"),
+    ("address", r"\bas\s+\*(?:const|mut)\b|\bas_ptr\s*\(|\baddr_of\b"),
+    ("process-state", r"\bstatic\s+mut\b|\bthread_local!|\blazy_static!|\bOnceCell\b|\bOnceLock\b|\bAtomic\w+\b"),
+]
+
+
+def macro_sources():
+    d = os.path.join(gen_tables.REPO, "sylt-macro", "src")
+    for root, _, files in sorted(os.walk(d)):
+        for f in sorted(files):
+            if f.endswith(".rs"):
+                yield (os.path.relpath(os.path.join(root, f), gen_tables.REPO),
+                       strip_comments_and_tests(open(os.path.join(root, f), encoding="utf-8").read()))
+
+
+def environment_sites():
+    out = []
+    for rel, s in list(all_sources()) + list(macro_sources()):
+        found = set()
+        for what, pat in ENV_PATTERNS:
+            for m in re.finditer(pat, s):
+                line_start = s.rfind("\n", 0, m.start()) + 1
+                found.add((line_start, what))
+        for pos, what in sorted(found):
+            out.append((rel, enclosing_fn(s, pos), what, statement_at(s, pos)[:300]))
+    return out
+
+
 def generate():
     sites = []
     # names bound to a hash container anywhere (values flow between files through struct fields)
@@ -189,6 +223,7 @@ def generate():
                 for pos, nm in sorted(set(found)):
                     sites.append((rel, enclosing_fn(s, pos), nm, statement_at(s, pos)))
     key_types = hand_written_eq_hash()
+    env_sites = environment_sites()
     out = ["(* GENERATED by tools/gens/gen_hashsites.py -- do not edit *)",
            "From Coq Require Import String List.",
            "Import ListNotations.",
@@ -207,5 +242,12 @@ def generate():
     out.append("   a key type whose Eq is coarser than its Hash makes HashMap lookups miss at random *)")
     out.append("Definition key_types : list (string * string * string * string * string * string) := [")
     out.append(";\n".join('  ("%s", "%s", "%s", "%s", "%s", "%s")' % tuple(x.replace('"', "'") for x in kt) for kt in key_types))
+    out.append("].")
+    out.append("")
+    out.append("(* every place where the crates read something that is not a function of the sources: clock, environment")
+    out.append("   variables, arguments, current directory, directory listings, process / thread identity, random state,")
+    out.append("   addresses: (file, enclosing fn, what, normalised statement) *)")
+    out.append("Definition env_sites : list (string * string * string * string) := [")
+    out.append(";\n".join('  ("%s", "%s", "%s", "%s")' % tuple(x.replace('"', "'") for x in e) for e in env_sites))
     out.append("].")
     return "GenHashSites.v", "\n".join(out) + "\n"
